@@ -976,3 +976,26 @@ impl CKBProtocolHandler for Relayer {
 pub fn verif_compact_block_verify(block: &packed::CompactBlock) -> Status {
     compact_block_verifier::CompactBlockVerifier::verify(block)
 }
+
+/// verif-hooks: public wrapper over the crate-private `BlockTransactionsVerifier::verify`
+/// (run by `BlockTransactionsProcess::execute` on the pending compact block, the indexes that
+/// were requested from the peer and the transactions it sent).
+#[cfg(feature = "verif-hooks")]
+pub fn verif_block_transactions_verify(
+    block: &packed::CompactBlock,
+    indexes: &[u32],
+    transactions: &[core::TransactionView],
+) -> Status {
+    block_transactions_verifier::BlockTransactionsVerifier::verify(block, indexes, transactions)
+}
+
+/// verif-hooks: public wrapper over the crate-private `BlockUnclesVerifier::verify`
+/// (run by `BlockTransactionsProcess::execute` right after the transactions verifier).
+#[cfg(feature = "verif-hooks")]
+pub fn verif_block_uncles_verify(
+    block: &packed::CompactBlock,
+    indexes: &[u32],
+    uncles: &[core::UncleBlockView],
+) -> Status {
+    block_uncles_verifier::BlockUnclesVerifier::verify(block, indexes, uncles)
+}
